@@ -30,6 +30,16 @@ CASE_TIMEOUT_S = int(os.environ.get("VERIF_CASE_TIMEOUT", "60"))
 MAX_VIOL_PER_SHARD = 40
 
 
+# Optional observer of raw detector outputs (used by C04 to apply the well-formedness
+# invariant to outputs produced inside the table families of other properties).
+OUTPUT_HOOK = None
+
+
+def emit(det_name, y, **info):
+    if OUTPUT_HOOK is not None:
+        OUTPUT_HOOK(det_name, y, info)
+
+
 class CaseTimeout(Exception):
     pass
 
